@@ -490,6 +490,7 @@ def dp_tree(F, fn):
             continue
         ln, rk = None, None
         len_excl = None
+        bool_conds = []
         for (b, t, lab, ty, others) in p.conds:
             if P.strip(t) == ("param", 1):
                 if lab == "otherwise":
@@ -505,10 +506,12 @@ def dp_tree(F, fn):
                 else:
                     rk = I.variant_by_discr(F, RANK, lab)
             elif ty == "bool":
-                # bounds-check style or other: not expected in switch form
-                raise U(rule, f"unexpected branch {P.show(t)}", fn)
+                # a guard on the count in front of a single table for all lengths is folded below; anything else is not expected
+                bool_conds.append(t)
             else:
                 raise U(rule, f"unexpected switch {P.show(t)}", fn)
+        if bool_conds and not (ln is None and rk is None and len_excl is None):
+            raise U(rule, f"unexpected branch {P.show(bool_conds[0])}", fn)
         if p.end != "return":
             if ln is not None:
                 table[(ln, rk)] = None
@@ -533,6 +536,59 @@ def dp_tree(F, fn):
                     if code >= len(cv["array"]):
                         raise U(rule, f"rank code {code} of {rname} is outside row table {cname}", fn)
                     table[(ln, rname)] = ("rows", f"{cname}[{code}]", cv["array"][code])
+                continue
+        if ln is None and rk is None and len_excl is None:
+            # one table for all lengths: TABLE[len - k][code(rank)][remaining], the path guarded by conditions on len only
+            t = P.strip(dtree.PathProv(fn, p).local(0))
+            mid = P.strip(t[1]) if t[0] == "index" else None
+            top = P.strip(mid[1]) if mid is not None and mid[0] == "index" else None
+            if top is not None and top[0] == "index" and P.strip(top[1])[0] == "named":
+                cname = P.strip(top[1])[1]
+                cv = F.const_value(cname)
+                if P.strip(P.unwiden(t[2])) != ("param", 3):
+                    raise U(rule, f"row index is {P.show(t[2])}, not the remaining-cards argument", fn)
+                if not is_code_of(F, mid[2], lambda a: P.strip(a) == ("param", 2), RANK):
+                    raise U(rule, f"table row is selected by {P.show(mid[2])[:80]}, not by the rank code", fn)
+                li = P.strip(P.unwiden(top[2]))
+                k_ = 0
+                if li[0] == "bin" and li[1] == "Sub" and P.const_int(li[3]) is not None:
+                    k_, li = P.const_int(li[3]), P.strip(P.unwiden(li[2]))
+                if li != ("param", 1):
+                    raise U(rule, f"table plane is selected by {P.show(top[2])[:80]}, not by the count", fn)
+                if not cv or "array" not in cv or not all(isinstance(pl_, list) and all(isinstance(r_, list) for r_ in pl_) for pl_ in cv["array"]):
+                    raise U(rule, f"{cname} not evaluated as an array of row tables", fn)
+
+                def cond_holds(t_, lab_, others_, n_):
+                    truth = (others_ == [0]) if lab_ == "otherwise" else bool(lab_)
+                    s_ = P.strip(t_, calls=False)
+                    if s_[0] == "call" and s_[1].endswith("::contains") and "RangeInclusive" in s_[1] and len(s_[2]) == 2 \
+                            and P.strip(s_[2][1]) == ("param", 1):
+                        r_ = P.strip(s_[2][0], calls=False)
+                        lo_hi = None
+                        if r_[0] == "call" and r_[1].endswith("RangeInclusive::<Idx>::new") and len(r_[2]) == 2:
+                            lo_hi = (P.const_int(r_[2][0]), P.const_int(r_[2][1]))
+                        if lo_hi is None or None in lo_hi:
+                            raise U(rule, f"guard on the count is not a constant range: {P.show(s_)[:80]}", fn)
+                        return (lo_hi[0] <= n_ <= lo_hi[1]) == truth
+                    rel = I.norm_rel(t_, truth)
+                    if rel is not None:
+                        op_, x_, y_ = rel
+                        xv = n_ if P.strip(P.unwiden(P.strip(x_))) == ("param", 1) else P.const_int(x_)
+                        yv = n_ if P.strip(P.unwiden(P.strip(y_))) == ("param", 1) else P.const_int(y_)
+                        if xv is not None and yv is not None:
+                            return {"Lt": xv < yv, "Le": xv <= yv, "Gt": xv > yv, "Ge": xv >= yv, "Eq": xv == yv, "Ne": xv != yv}[op_]
+                    raise U(rule, f"guard on the dispatch is not a condition on the count: {P.show(t_)[:80]}", fn)
+                codes, _cf = code_table(F, RANK)
+                for n_ in (1, 2, 3, 4):
+                    if not all(cond_holds(t_, lab_, oth_, n_) for (_b, t_, lab_, _ty, oth_) in p.conds):
+                        continue
+                    if not (0 <= n_ - k_ < len(cv["array"])):
+                        raise U(rule, f"count {n_} selects plane {n_ - k_} outside {cname}", fn)
+                    plane = cv["array"][n_ - k_]
+                    for rname, code in codes.items():
+                        if code >= len(plane):
+                            raise U(rule, f"rank code {code} of {rname} is outside {cname}[{n_ - k_}]", fn)
+                        table[(n_, rname)] = ("rows", f"{cname}[{n_ - k_}][{code}]", plane[code])
                 continue
         if ln is None or rk is None:
             raise U(rule, "a returning path is not selected by (len, rank)", fn)
